@@ -3,10 +3,12 @@
    t = sqrt(tau^2+|p|^2), metric (-,-,-,+), active right-handed rotations, active boosts, ROOT Euler / quaternion
    conventions ...).  The theorems of C01 / C09 / C10 are stated against these definitions in every coordinate system, so
    they are the bulk of C02; this file names them and adds the remaining definitions on the Cartesian variants.
-   PARTIAL: float64 rounding error bounds are not proved (see DESIGN); float64 vs 60-digit evaluation is a test (evidence). *)
+   PARTIAL: float64 rounding-error bounds are proved only for the Cartesian sums of products and their square roots
+   (C02_float64_error_bounds_partial, in the rounding instance lib/FLib.v); for everything else float64 vs 60-digit evaluation is a
+   test (evidence). *)
 From Coq Require Import Reals.
 From VP Require Import Lib RLib Spec Compute Tables Spec_planar Spec_spatial1 Spec_spatial2 Spec_lorentz C02_defs C09_boost C10_rot.
-From VP Require Import Spec_lorentz2 Spec_lorentz3.
+From VP Require Import Spec_lorentz2 Spec_lorentz3 FLib C02_float.
 Open Scope R_scope.
 
 (* coordinate relations, all systems *)
@@ -113,3 +115,42 @@ Proof.
     (conj (Mt_spec s l t a b c d H) (conj (tau_spec s l t a b c d H) (conj (gamma_spec s l t a b c d H)
     (conj (Et_spec s l t a b c d H) (conj (Et2_spec s l t a b c d H) (conj (unit_spec3 s l a b c H3) (unit_spec4 s l t a b c d H)))))))))).
 Qed.
+
+(* ---------------- float clause (PARTIAL) ----------------
+   The generated definitions are polymorphic in the arithmetic (Class Lib).  lib/FLib.v reads them with every + - * / sqrt followed
+   by rounding to nearest-even at 53 bits (Flocq's FLX format: binary64 with the exponent range left unbounded, i.e. no overflow and
+   no underflow) and x**2 as ANY function with a one-ulp contract (sq_ok: numpy squares by a correctly rounded multiplication, the
+   object backend's Python floats go through libm's pow).  For these instances the float result of the SAME definitions is within
+     g_k = (1+u)^k - 1 <= (k+1) u,  h_k <= (k+2) u,   u = 2^-53
+   of the exact value, relative to the sum of the magnitudes of the terms (which IS the value for the sums of squares: these are
+   unconditionally well-conditioned), i.e. "a small multiple of rounding error for well-conditioned operands".
+   Missing for the full clause: the other coordinate systems (libm's sin/cos/exp/... carry no proved contract), overflow / underflow. *)
+Theorem C02_float64_error_bounds_partial : forall sq, sq_ok sq ->
+  (forall x1 y1 x2 y2, exists v e,
+     numf (@T_planar_dot (FLib sq) XY XY x1 y1 x2 y2) = Some v /\ numr (@T_planar_dot RLib XY XY x1 y1 x2 y2) = Some e /\
+     Rabs (v - e) <= g2 * (Rabs (x1 * x2) + Rabs (y1 * y2))) /\
+  (forall x1 y1 z1 x2 y2 z2, exists v e,
+     numf (@T_spatial_dot (FLib sq) XY LZ XY LZ x1 y1 z1 x2 y2 z2) = Some v /\ numr (@T_spatial_dot RLib XY LZ XY LZ x1 y1 z1 x2 y2 z2) = Some e /\
+     Rabs (v - e) <= g3 * (Rabs (x1 * x2) + Rabs (y1 * y2) + Rabs (z1 * z2))) /\
+  (forall x1 y1 z1 t1 x2 y2 z2 t2, exists v e,
+     numf (@T_lorentz_dot (FLib sq) XY LZ TT XY LZ TT x1 y1 z1 t1 x2 y2 z2 t2) = Some v /\
+     numr (@T_lorentz_dot RLib XY LZ TT XY LZ TT x1 y1 z1 t1 x2 y2 z2 t2) = Some e /\
+     Rabs (v - e) <= g4 * (Rabs (t1 * t2) + Rabs (x1 * x2) + Rabs (y1 * y2) + Rabs (z1 * z2))) /\
+  (forall x y, exists v e, numf (@T_planar_rho2 (FLib sq) XY x y) = Some v /\ numr (@T_planar_rho2 RLib XY x y) = Some e /\
+     e = x * x + y * y /\ Rabs (v - e) <= h2 * e) /\
+  (forall x y z, exists v e, numf (@T_spatial_mag2 (FLib sq) XY LZ x y z) = Some v /\ numr (@T_spatial_mag2 RLib XY LZ x y z) = Some e /\
+     e = x * x + y * y + z * z /\ Rabs (v - e) <= h3 * e) /\
+  (forall x y, exists v, numf (@T_planar_rho (FLib sq) XY x y) = Some v /\ Rabs (v - sqrt (x * x + y * y)) <= h3 * sqrt (x * x + y * y)) /\
+  (forall x y z, exists v, numf (@T_spatial_mag (FLib sq) XY LZ x y z) = Some v /\
+     Rabs (v - sqrt (x * x + y * y + z * z)) <= h4 * sqrt (x * x + y * y + z * z)) /\
+  (g2 <= 3 * u53 /\ g3 <= 4 * u53 /\ g4 <= 5 * u53 /\ h2 <= 4 * u53 /\ h3 <= 5 * u53 /\ h4 <= 6 * u53) /\ u53 = / IZR (2 ^ 53).
+Proof.
+  intros sq Hsq.
+  exact (conj (dot2_float_error sq) (conj (dot3_float_error sq) (conj (dot4_float_error sq) (conj (fun x y => rho2_float_error sq x y Hsq)
+    (conj (fun x y z => mag2_float_error sq x y z Hsq) (conj (fun x y => rho_float_error sq x y Hsq) (conj (fun x y z => mag_float_error sq x y z Hsq)
+    (conj g_numeric u53_value)))))))).
+Qed.
+
+(* the squaring contract is satisfiable (by the correctly rounded multiplication) *)
+Example C02_float_nonvacuous : exists sq, sq_ok sq.
+Proof. exact (ex_intro _ _ sq_ok_mult). Qed.
